@@ -1,6 +1,7 @@
 """C14 — WMA age grading is defined, consistent and spelling-independent on its domain."""
 import ast
 import math
+import os
 
 from ..core import AnalysisError
 from ..src import call_name, stmt_key, unparse
@@ -454,7 +455,8 @@ def classifier_case_rule(ctx, repo):
     ctx.floor('tabulated codes classified in both cases', n, 100)
     rk = sorted({x[0] for x in refused})
     if rk:
-        ctx.finding('R10', '%s::AgeGrader.calculate_factor::lower-case spellings refused by the classifier' % AGE, AGE, raw_call.lineno if raw_call else cf_.lineno,
+        ctx.finding('R10', '%s::AgeGrader.calculate_factor::lower-case spellings refused by the classifier: %s' % (AGE, ' '.join(x.lower() for x in rk)),
+                    AGE, raw_call.lineno if raw_call else cf_.lineno,
                     'the event code is classified (event_code_to_kind) before it is upper-cased; %d tabulated codes are refused with ValueError in '
                     'lower case, e.g. %s: codes differing only in letter case do not give the same factor'
                     % (len(rk), ', '.join(repr(b.lower()) for b in rk[:6])), rk[0].lower())
@@ -528,8 +530,48 @@ def wrapper_rules(ctx, repo):
             ctx.finding('R7', 'athlib/__init__.py::wrappers::table chosen for year %s' % label, 'athlib/__init__.py', init.func('wma_age_factor').lineno,
                         'for year = %s the wrappers choose different tables (%s): the grade, the best and the factor of one call sequence come '
                         'from different tables, so grade != (best / factor) / performance' % (label, vals), vals)
-    # R8 gender spellings
+    # R12 the shared graders built at import load the table their name and argument say (constructor folded on the actual arguments)
     ag = repo.module(AGE)
+    ctx.rule('R12', 'every module-level AgeGrader(year=Y) of athlib/__init__.py loads wma-data-Y.json, an existing file (constructor folded)')
+    ctor = ag.func('AgeGrader.__init__') if ag.has_func('AgeGrader.__init__') else None
+    n_inst = 0
+    if ctor is not None:
+        cls_consts = {}
+        for st in ag.cls('AgeGrader').body:
+            if isinstance(st, ast.Assign) and len(st.targets) == 1 and isinstance(st.targets[0], ast.Name) and isinstance(st.value, ast.Constant):
+                cls_consts[st.targets[0].id] = st.value.value
+        env_mod0 = {k: v for k, v in repo.folded(AGE)[0].items()}
+        for st in init.tree.body:
+            if not (isinstance(st, ast.Assign) and isinstance(st.value, ast.Call) and call_name(st.value) == 'AgeGrader'):
+                continue
+            call = st.value
+            try:
+                args = [F.expr(a, {}) for a in call.args]
+                kw = {k.arg: F.expr(k.value, {}) for k in call.keywords}
+            except Exception:
+                continue
+            n_inst += 1
+            year = kw.get('year', args[0] if args else None)
+            me = fold.ObjConst(dict(cls_consts))
+            try:
+                fold.Folder().call(fold.FuncConst(ctor, env_mod0), [me] + args, kw)
+            except fold._Raise as ex_:
+                ctx.finding('R12', 'athlib/__init__.py::%s::constructor refuses' % unparse(call), 'athlib/__init__.py', st.lineno,
+                            'AgeGrader.__init__ raises %s for the arguments athlib/__init__.py passes: the package does not import' % ex_.name)
+                continue
+            except Exception as e:
+                raise AnalysisError('AgeGrader.__init__ not foldable: %s' % e)
+            fname = me.attrs.get('data_file_name')
+            names = [t.id for t in st.targets if isinstance(t, ast.Name)]
+            path = os.path.join(repo.root, 'athlib', 'wma', str(fname))
+            if year is not None and (str(year) not in str(fname) or not os.path.isfile(path)):
+                ctx.finding('R12', 'athlib/__init__.py::%s::table loaded' % '/'.join(names), 'athlib/__init__.py', st.lineno,
+                            '%s = %s loads %r%s: the shared grader that the wrappers use for year %s grades with another table'
+                            % (' = '.join(names), unparse(call), fname, '' if os.path.isfile(path) else ' (no such file)', year), str(year))
+            else:
+                ctx.ok('R12', '%s loads %s' % ('/'.join(names), fname))
+    ctx.floor('module-level graders whose constructor was folded', n_inst, 2)
+    # R8 gender spellings
     ng = ag.func('AgeGrader.normalize_gender')
     env_mod = {k: v for k, v in repo.folded(AGE)[0].items()}
     fc = fold.FuncConst(ng, env_mod)
